@@ -79,6 +79,22 @@ func (e *connStatus) SwapWithoutLock(state connStatusValue) (old connStatusValue
 	return
 }
 
+// ReconnectFrom asks for a reconnect on behalf of a caller whose request failed on the connection
+// of the given epoch (the value of Reconnects when the request started). If the connection has
+// been replaced or is being replaced since then, the failure is stale and nothing is changed.
+// It reports false only when the connection is closed.
+func (e *connStatus) ReconnectFrom(epoch uint64) (ok bool) {
+	e.Lock()
+	defer e.Unlock()
+	if e.IsWithoutLock(connStatusClosed) {
+		return false
+	}
+	if e.reconnects == epoch {
+		e.SwapWithoutLock(connStatusReconnecting)
+	}
+	return true
+}
+
 // Reconnects returns how often the connection has entered the reconnecting status.
 func (e *connStatus) Reconnects() uint64 {
 	e.RLock()
